@@ -224,15 +224,14 @@ pub fn run_tick(sim: &mut Sim) -> Outcome {
     let n = sim.choose("knob_hooks", 1, 3);
     let mut kinds = vec![];
     for _ in 0..n {
-        // Passthrough is exercised in its own scenario (it is only sound together with a fold hook)
-        kinds.push(*sim.pick("knob_kind", &Kind::TICK[..6]));
+        kinds.push(*sim.pick("knob_kind", &Kind::TICK));
     }
     run_group(sim, kinds, "tick")
 }
 
 /// A tick with a batch hook and a `PassthroughSingletonHook` (snapshot of a top-level fold over an
-/// unordered stream). Not part of the regular mix: on the current tree it reproduces FINDINGS.md #1
-/// (`release_decision` panics when the fold produced no new version since the last tick).
+/// unordered stream): the shape that exposed finding #1 (`release_decision` panicked when the fold
+/// had produced no new version since the last tick; repaired in /repo by 1bedb80806a).
 pub fn run_passthrough_tick(sim: &mut Sim) -> Outcome {
     run_group(sim, vec![Kind::Passthrough, Kind::StreamTotal], "passthrough_tick")
 }
